@@ -53,7 +53,12 @@ partial def canon (c : Ctx) : Val → String
   | .str _ s =>
     "s:\"" ++ String.ofList ((escapeLine s).toList.flatMap fun ch =>
       if ch = '"' then ['\\', 'q'] else if ch = ' ' then ['\\', '_'] else [ch]) ++ "\""
-  | .sym n => "y:" ++ String.ofList ((escapeLine (c.symName n)).toList.flatMap fun ch =>
+  | .sym n =>
+    -- y: (eq to) the interned symbol of its name; u: an uninterned symbol
+    let interned := match c.obarray[c.symName n]? with
+      | some k => symEq c k n
+      | none => false
+    (if interned then "y:" else "u:") ++ String.ofList ((escapeLine (c.symName n)).toList.flatMap fun ch =>
       if ch = ' ' then ['\\', '_'] else [ch])
   | .cons _ a d => "(" ++ canon c a ++ canonRest c d
   | .quote v => "'" ++ canon c v
